@@ -2633,6 +2633,19 @@ rfbProcessClientNormalMessage(rfbClientPtr cl)
 	  cl->enableCursorPosUpdates = FALSE;
 	}
 
+	if (!cl->useCopyRect) {
+	  /* the client no longer accepts CopyRect: what is still scheduled as a
+	     copy has to be sent as pixel data */
+	  LOCK(cl->updateMutex);
+	  if (!sraRgnEmpty(cl->copyRegion)) {
+	    sraRgnOr(cl->modifiedRegion, cl->copyRegion);
+	    sraRgnMakeEmpty(cl->copyRegion);
+	    cl->copyDX = 0;
+	    cl->copyDY = 0;
+	  }
+	  UNLOCK(cl->updateMutex);
+	}
+
         return;
     }
 
